@@ -44,11 +44,11 @@ type Case struct {
 	Owners [][]int `json:"owners"`
 	// Ghost: member 0 additionally claims ta[Parts[0]] (a partition that
 	// does not exist) and tz[0] (a topic that does not exist).
-	Ghost      bool       `json:"ghost_claims,omitempty"`
+	Ghost bool `json:"ghost_claims,omitempty"`
 	// GhostName is the name of the nonexistent topic (default "tz"). Its
 	// position in a member's (sorted) subscription list depends on it: "t0"
 	// sorts before every existing topic, "taz" between ta and tb, "tz" last.
-	GhostName string `json:"ghost_name,omitempty"`
+	GhostName  string     `json:"ghost_name,omitempty"`
 	MRack      []string   `json:"member_racks,omitempty"`    // "" = member sends no rack
 	PRack      [][]string `json:"partition_racks,omitempty"` // per real topic, per partition
 	Static     bool       `json:"static_reversed,omitempty"` // instance IDs whose order reverses the member-ID order
